@@ -126,31 +126,47 @@ func (p *Program) VerifyFunc(key string) (u *Unit, err error) {
 		}
 	}
 	// postconditions
-	post := map[string]Val{}
-	for k, v := range fr.cvars {
-		post[k] = v
-	}
 	sig := fn.Signature
-	for i, n := range fc.Results {
-		if i < len(rets) {
-			post[n] = rets[i]
-		}
-	}
-	if len(rets) > 0 {
-		post["result"] = rets[0]
-	}
+	_ = rets
 	if sig.Results().Len() != len(fc.Results) && len(fc.Results) > 0 {
 		u.unsupported("%s: contract names %d results, function has %d", key, len(fc.Results), sig.Results().Len())
 	}
-	penv := &Env{u: u, vars: post, st: final, old: fr.entry, pkg: u.curPkg}
-	final.guard = guard
+	_ = final
 	u.cover(key, "return", p.pos(fn.Pos()), guard)
+	// postconditions, one case per return path (no merged heaps in the query)
+	used := map[string]int{}
 	for _, e := range fc.Ensures {
-		t, rec, err := penv.EvalClause(e.Expr)
-		if err != nil {
-			return u, fmt.Errorf("%s: ensures %q: %v", key, e.Src, err)
+		name := key + "#post"
+		if e.Label != "" {
+			name += "[" + e.Label + "]"
 		}
-		u.obligeRec(key, "post", e.Label, p.pos(fn.Pos()), e.Src, guard, t, rec)
+		used[name]++
+		if used[name] > 1 || e.Label == "" {
+			name = fmt.Sprintf("%s@%d", name, used[name])
+		}
+		if len(fr.rets) == 0 {
+			u.obligeCase(name, key, "post", e.Label, p.pos(fn.Pos()), e.Src, "false", "true", nil, 0)
+		}
+		for k, r := range fr.rets {
+			pv := map[string]Val{}
+			for n, v := range fr.cvars {
+				pv[n] = v
+			}
+			for i, n := range fc.Results {
+				if i < len(r.vals) {
+					pv[n] = r.vals[i]
+				}
+			}
+			if len(r.vals) > 0 {
+				pv["result"] = r.vals[0]
+			}
+			penv := &Env{u: u, vars: pv, st: r.st, old: fr.entry, pkg: u.curPkg}
+			t, rec, err := penv.EvalClause(e.Expr)
+			if err != nil {
+				return u, fmt.Errorf("%s: ensures %q: %v", key, e.Src, err)
+			}
+			u.obligeCase(name, key, "post", e.Label, p.pos(fn.Pos()), e.Src, r.guard, t, rec, k)
+		}
 	}
 	u.strSMT = u.usesStrOps
 	return u, nil
